@@ -12,6 +12,7 @@ import (
 	"encoding/hex"
 	"encoding/json"
 	"fmt"
+	"runtime/debug"
 	"sort"
 	"strings"
 	"time"
@@ -723,12 +724,40 @@ func resetToPristine() error {
 	}
 	p, v, site := fw.Try(func() { core.VerifGroupSetMemory(pristineCount, last) })
 	if p {
-		return fmt.Errorf("cannot reset the chain object: %v at %s", v, site)
+		return &noChainObject{fmt.Sprintf("cannot reset the chain object: %v at %s", v, site)}
 	}
 	if s := implState(); s != pristineState {
 		return fmt.Errorf("state after reset differs from the state after boot:\n--- boot\n%s--- reset\n%s", pristineState, s)
 	}
 	return nil
+}
+
+// noChainObject: the process has no group chain object any more (an initialisation of an
+// earlier history panicked half way).
+type noChainObject struct{ msg string }
+
+func (e *noChainObject) Error() string { return e.msg }
+
+var jgsGeneration int
+
+// freshInstance = resetToPristine; when an earlier restart panicked inside the
+// initialisation (no chain object, and the private joined-group LevelDB it had already
+// opened stays locked by this process) the chain is first rebuilt by the unmodified
+// first-boot initialisation with the joined-group store pointed at a new, empty
+// directory (a configuration value; that store plays no role in any history).
+func freshInstance() error {
+	err := resetToPristine()
+	if _, dead := err.(*noChainObject); !dead {
+		return err
+	}
+	jgsGeneration++
+	// the abandoned store object keeps its 128 MiB write buffer reserved for good
+	debug.SetMemoryLimit(int64(400+136*jgsGeneration) << 20)
+	common.GlobalConf.SetString(common.ConfigSec, common.DefaultJoinedGroupDatabaseKey, fmt.Sprintf("jgs_c19_%d", jgsGeneration))
+	if err := resetByReinit(); err != nil {
+		return err
+	}
+	return resetToPristine()
 }
 
 func newModel() *refGroups {
@@ -749,8 +778,9 @@ type histResult struct {
 	Fails     []failure // oracle result after the last op
 	AllFails  [][]failure
 	ListLen   int
-	OddUsed   bool // an ID-dimension addition was accepted in this history
-	Dead      bool // an op panicked: the process-global chain object may be unusable
+	OddUsed   bool   // an ID-dimension addition was accepted in this history
+	OddListed string // its kind if it is listed in the final state
+	Dead      bool   // an op panicked: the process-global chain object may be unusable
 	ResetErr  error
 }
 
@@ -759,7 +789,7 @@ type histResult struct {
 // checkFrom = 0 checks the initial state and every step.
 func runHistory(hist []string, checkFrom int) *histResult {
 	r := &histResult{}
-	if err := resetToPristine(); err != nil {
+	if err := freshInstance(); err != nil {
 		r.ResetErr = err
 		return r
 	}
@@ -788,7 +818,7 @@ func runHistory(hist []string, checkFrom int) *histResult {
 		}
 	}
 	r.ListLen = len(m.list)
-	r.OddUsed = m.oddUsed
+	r.OddUsed, r.OddListed = m.oddUsed, m.oddListed
 	if !r.Dead {
 		r.Key = stateKey(m)
 		r.Fails = r.AllFails[len(hist)]
